@@ -444,7 +444,7 @@ func c17Requeuer(c *Check) {
 		okFmt, num := decimalOf(firstOrigin(Arg(s, 1)))
 		okInc := false
 		if okFmt {
-			if bo, isB := num.(*ssa.BinOp); isB && bo.Op == token.ADD {
+			if bo, isB := firstOrigin(num).(*ssa.BinOp); isB && bo.Op == token.ADD {
 				x, y := bo.X, bo.Y
 				if n, isC := IntConst(x); isC && n == 1 {
 					x, y = y, x
@@ -494,6 +494,9 @@ func c17Requeuer(c *Check) {
 			"the stored value is the decimal form of (previous parsed value, or 0 on parse error) + 1")
 		for _, pb := range pubs {
 			c.Report(Dominates(fn, s, pb), P+".O3", "RETRIES-BEFORE-PUBLISH", fn, s.Pos(), "Set(RetriesKey)", "the counter is stored on every path before Publish")
+		}
+		for _, g := range gens {
+			c.Report(!ReachAfter(s, nil)[g], P+".O2", "GENERATOR-SEES-CONSUMED-STATE", fn, g.Pos(), "GeneratePublishTopic call", "the topic is computed from the message as it was consumed: before this attempt's counter is written (a generator that looks at the counter decides with the number of retries already made)")
 		}
 		c.Report(!InLoop(s), P+".O3", "RETRIES-ONCE", fn, s.Pos(), "Set(RetriesKey)", "the counter is raised once per requeue")
 	}
